@@ -337,3 +337,16 @@ Definition vlink (l : link) : val := VL [VN (fst l); VN (snd l)].
 Definition vnames (l : list name) : val := VL (map VN l).
 Definition vrm (s : rm_state) : val :=
   VL [vnat (rm_max s); vlist vlink (rm_links s); vlist vlink (rm_roles s); vlist vlink (rm_users s)].
+
+(* the plain-manager history that a domain-manager history amounts to for domain d
+   (spec of "only assignments recorded for the queried domain are followed") *)
+Definition dm_proj (d : name) (ops : list dm_op) : list rm_op :=
+  flat_map (fun o => match o with
+                     | DAdd u r d' => if N.eqb d' d then [OAdd u r] else []
+                     | DDel u r d' => if N.eqb d' d then [ODel u r] else []
+                     | DClear => [OClear]
+                     | DQuery _ => []
+                     end) ops.
+
+(* the state in which all three stores hold the same duplicate-free list *)
+Definition rm_set (max_level : nat) (ls : list link) : rm_state := mkRM max_level ls ls ls.
